@@ -21,6 +21,22 @@ CLAIMS = {
  "C06": dict(technique="exhaustive enumeration of the grid-class x option x N x M x horizon x method product (and ordered pairs of grid objects in one process) on the real rockit; sampled times compared with independent partitions; the grid's own NLP rows analysed as an enumerated affine system (null space, boundary lattice)",
              text="Full product of 9 grid classes x 6 option sets x N x M x horizon kinds x 3 methods: all sampled time vectors, value(T,t0,tf), DT and DT_control equal independently computed partitions; for localized/free grids the real time-only rows admit exactly the declared partition family and enforce min/max exactly on a boundary lattice.",
              design="DESIGN.md 3 (C06)"),
+
+ "C09": dict(technique="deviation-bounded exhaustive enumeration of parametric programs x value alphabets plus depth-bounded exhaustive enumeration of set_value/query/solve/edit histories on the real rockit, against the reference with values written in, a constants-written-in twin on the real code, and a fresh object",
+             text="Parameter kind x place of use x value alphabet (incl. unit tables/matrices) x method at <=2/<=3 deviations: all NLP data equal the reference evaluated with the declared values and the real OCP written with constants; every history of length <=3/<=4 over set_value (two parameters, two values each), query, solve, subject_to, method: the solver sees the NLP and parameter vector of a fresh OCP with the final values.",
+             design="DESIGN.md 5 (C09)"),
+ "C10": dict(technique="deviation-bounded exhaustive enumeration of guess declarations x methods plus depth-bounded exhaustive enumeration of set_initial/query/solve/edit histories on the real rockit, against an independent guess evaluator and a fresh object",
+             text="Target x guess form x second call x method/N/M/degree/grid/horizon/scale at <=2/<=3 deviations plus the full target x form x method x grid table: the public read-back of the starting point equals the evaluator (open entries excluded and counted), rows and objective untouched; histories of length <=3/<=4 incl. dependent guesses: next solve = fresh = evaluator.",
+             design="DESIGN.md 5 (C10)"),
+ "C11": dict(technique="deviation-bounded exhaustive enumeration of free-horizon programs x methods on the real rockit against the reference evaluated at the labelled T,t0, plus a differential with the fixed-time OCP on the real code through the affine labelling",
+             text="Free-horizon kind x method/intg/N/M/degree/scheme/grid (incl. localized, FreeGrid) x T/t0/tf terms x guesses at <=2/<=3 deviations: all rows/objective as the fixed-time transcription at the labelled horizon, start value = guess, time-only inequality rows violated exactly for T<0, restriction to T=c equals the OCP declared with c.",
+             design="DESIGN.md 5 (C11)"),
+ "C13": dict(technique="depth-bounded exhaustive enumeration of operation histories (no implementation-side state merging) on a live Ocp under a solver spy, compared with a fresh object of the final specification",
+             text="Every history of length <=3 (quick) / <=4 + restricted 5 (thorough) over 16 public operations, and over a second 10-operation alphabet on a free-horizon base: what the solver receives (canonical rows, objective, start point, parameters, solver name/options) equals a fresh OCP declared from the final specification; a second solve sees the same; declared state untouched by queries/solves.",
+             design="DESIGN.md 6 (C13)"),
+ "C14": dict(technique="deviation-bounded exhaustive enumeration of scale assignments x methods on the real rockit against the unscaled reference, with the solver-variable/physical relation read from the enumerated labelling Jacobian",
+             text="8 scale slots x method/degree/grid/N/M/DAE/horizon at <=3/<=4 deviations plus every slot x method x M x DAE: objective equal, user rows and bounds divided by the scale, dynamics rows up to a positive constant, each decision coordinate moves its physical read-back by exactly its scale, starting point equals the guesses in physical units.",
+             design="DESIGN.md 5 (C14)"),
 }
 NOTE = "Trusted: CasADi Function evaluation and Opti bookkeeping (x,p,f,g,lbg,ubg,initial), numpy/scipy, the reference model (written from the property statements, cross-checked against textbook closed forms). Numeric quantifiers are closed by a fixed generic-point alphabet (a stated bound), configuration quantifiers by the stated deviation/depth bound."
 
